@@ -14,6 +14,8 @@ use crate::utils::normalize_path;
 enum Source {
     FileSystem,
     Memory(Arc<Mutex<HashMap<PathBuf, String>>>),
+    #[cfg(feature = "verif-hooks")]
+    Simulated(Arc<dyn super::verif_hooks::VerifFileSystem>),
 }
 
 impl Source {
@@ -21,6 +23,8 @@ impl Source {
         match self {
             Self::FileSystem => Ok(location.exists()),
             Self::Memory(data) => Ok(data.lock().unwrap().contains_key(&normalize_path(location))),
+            #[cfg(feature = "verif-hooks")]
+            Self::Simulated(fs) => Ok(fs.exists(location)),
         }
     }
 
@@ -34,6 +38,8 @@ impl Source {
                 data.iter()
                     .any(|(path, _content)| path != &location && path.starts_with(&location))
             }
+            #[cfg(feature = "verif-hooks")]
+            Source::Simulated(fs) => fs.is_directory(location),
         };
         Ok(is_directory)
     }
@@ -47,6 +53,8 @@ impl Source {
 
                 data.contains_key(&location)
             }
+            #[cfg(feature = "verif-hooks")]
+            Source::Simulated(fs) => fs.is_file(location),
         };
         Ok(is_file)
     }
@@ -65,6 +73,14 @@ impl Source {
                     .map(String::from)
                     .ok_or_else(|| ResourceError::not_found(location))
             }
+            #[cfg(feature = "verif-hooks")]
+            Self::Simulated(fs) => fs.get(location).map_err(|err| match err {
+                super::verif_hooks::VerifIoError::NotFound => ResourceError::not_found(location),
+                super::verif_hooks::VerifIoError::Io(error) => ResourceError::IO {
+                    path: location.to_path_buf(),
+                    error,
+                },
+            }),
         }
     }
 
@@ -88,6 +104,11 @@ impl Source {
                 data.insert(normalize_path(location), content.to_string());
                 Ok(())
             }
+            #[cfg(feature = "verif-hooks")]
+            Self::Simulated(fs) => fs.write(location, content).map_err(|(path, err)| match err {
+                super::verif_hooks::VerifIoError::NotFound => ResourceError::not_found(path),
+                super::verif_hooks::VerifIoError::Io(error) => ResourceError::IO { path, error },
+            }),
         }
     }
 
@@ -103,6 +124,12 @@ impl Source {
 
                 Box::new(paths.into_iter())
             }
+            #[cfg(feature = "verif-hooks")]
+            Self::Simulated(fs) => Box::new(
+                fs.walk_all(location)
+                    .into_iter()
+                    .filter_map(|(path, is_file)| is_file.then_some(path)),
+            ),
         }
     }
 
@@ -117,6 +144,16 @@ impl Source {
                 paths.retain(|path| path.starts_with(&location));
 
                 Box::new(paths.into_iter().map(ResourceContent::File))
+            }
+            #[cfg(feature = "verif-hooks")]
+            Self::Simulated(fs) => {
+                Box::new(fs.walk_all(location).into_iter().map(|(path, is_file)| {
+                    if is_file {
+                        ResourceContent::File(path)
+                    } else {
+                        ResourceContent::Directory(path)
+                    }
+                }))
             }
         }
     }
@@ -152,6 +189,8 @@ impl Source {
                 }
             },
             Self::Memory(_data) => Ok(false),
+            #[cfg(feature = "verif-hooks")]
+            Self::Simulated(fs) => Ok(fs.is_empty_directory(location)),
         }
     }
 
@@ -181,6 +220,14 @@ impl Source {
 
                 Ok(())
             }
+            #[cfg(feature = "verif-hooks")]
+            Self::Simulated(fs) => fs.remove(location).map_err(|err| match err {
+                super::verif_hooks::VerifIoError::NotFound => ResourceError::not_found(location),
+                super::verif_hooks::VerifIoError::Io(error) => ResourceError::IO {
+                    path: location.to_path_buf(),
+                    error,
+                },
+            }),
         }
     }
 }
@@ -285,6 +332,16 @@ impl Resources {
     pub fn from_memory() -> Self {
         Self {
             source: Source::Memory(Arc::new(Mutex::new(HashMap::new()))),
+        }
+    }
+
+    /// Creates a resource manager backed by a simulator-provided file system.
+    #[cfg(feature = "verif-hooks")]
+    pub fn from_verif_file_system(
+        file_system: Arc<dyn super::verif_hooks::VerifFileSystem>,
+    ) -> Self {
+        Self {
+            source: Source::Simulated(file_system),
         }
     }
 
